@@ -123,7 +123,7 @@ StartCommit(t) ==
 \* oracle.hasConflict on the (possibly pruned) committedTxns
 HasConflict(t) == \E c \in committedTxns : c.ts > readTs[t] /\ c.keys \cap Prog[t].reads # {}
 \* the contract's answer on the full history
-TrueConflict(t) == \E c \in allCommits : c.ts > readTs[t] /\ c.keys \cap Prog[t].reads # {}
+TrueConflict(t) == \E c \in allCommits : c.ts > readTs[t] /\ c.ts \notin rejected /\ c.keys \cap Prog[t].reads # {}
 
 NewCommitTs(t) ==
     /\ pc[t] = "locked"
@@ -164,16 +164,18 @@ Enqueue(t) ==
                    rdBegun, rdDone, rdDoneUntil, batch, mem, allCommits, rejected, result>>
 
 \* sendToWriteCh refuses the request (writes are blocked by a drop or by Close, or the request is
-\* too big): commitAndSend calls doneCommit at once and Commit returns the error.  The entry that
-\* newCommitTs appended to committedTxns stays there.
+\* too big): commitAndSend removes the record newCommitTs appended to committedTxns (forgetCommit;
+\* before "fix: forget the conflict-log record of a commit whose writes were refused" it stayed and
+\* caused spurious conflicts), calls doneCommit and Commit returns the error.
 EnqueueRejected(t) ==
     /\ pc[t] = "stamped"
+    /\ committedTxns' = {c \in committedTxns : c.ts # cts[t]}
     /\ txnDone' = txnDone \cup {cts[t]}
     /\ rejected' = rejected \cup {cts[t]}
     /\ lockHolder' = 0
     /\ result' = [result EXCEPT ![t] = "rejected"]
     /\ pc' = [pc EXCEPT ![t] = "finished"]
-    /\ UNCHANGED <<readTs, cts, nextTs, committedTxns, lastCleanup, txnBegun, txnDoneUntil,
+    /\ UNCHANGED <<readTs, cts, nextTs, lastCleanup, txnBegun, txnDoneUntil,
                    rdBegun, rdDone, rdDoneUntil, writeCh, batch, mem, allCommits>>
 
 \* ---------------------------------------------------------------- the writer goroutine
@@ -242,7 +244,7 @@ CommitOrderEqualsChannelOrder == Increasing(batch \o writeCh)
 \* transaction that can still commit
 ConflictLogSufficient ==
     \A t \in Txns : pc[t] \in {"waiting", "active", "locked"} /\ Prog[t].upd =>
-        \A c \in allCommits : c.ts > readTs[t] => [ts |-> c.ts, keys |-> c.keys] \in committedTxns
+        \A c \in allCommits : (c.ts > readTs[t] /\ c.ts \notin rejected) => [ts |-> c.ts, keys |-> c.keys] \in committedTxns
 DecisionEqualsContract ==
     \A t \in Txns : pc[t] = "locked" => (HasConflict(t) <=> TrueConflict(t))
 
